@@ -744,6 +744,15 @@ func astFromValue(value interface{}, ttype Type) ast.Value {
 		return val
 	}
 
+	// An enum's default is configured as its internal value: print its name.
+	if ttype, ok := ttype.(*Enum); ok {
+		if name, ok := ttype.Serialize(value).(string); ok {
+			return ast.NewEnumValue(&ast.EnumValue{
+				Value: name,
+			})
+		}
+		return nil
+	}
 	if valueVal.Type().Kind() == reflect.Map {
 		// TODO: implement astFromValue from Map to Value
 	}
